@@ -288,19 +288,20 @@ fn add<S: Subject>(jobs: &mut Vec<Box<dyn JobT>>, shape: TShape, q: u64, t: u64,
     let pc = PlanCfg::new(Weights::mixed().with_probe(30)).steps(8, 30).editors(2, 4);
     let ctx = Ctx::new(S::NEEDS).newest();
     let label = format!("{}/{:?}/reachable states x relative clocks", S::name(), S::NEEDS);
-    jobs.push(job(label, q, t, move || plan_strategy(&pc), move |p: &Plan, st: &mut Stats| check_reset::<S>(p, &ctx, st, &shape)).floor("nontrivial", floor).boxed());
+    jobs.push(job(label, q, t, { let pc = pc.clone(); move || plan_strategy(&pc) }, move |p: &Plan, st: &mut Stats| check_reset::<S>(p, &ctx, st, &shape)).decoder({ let pc = pc.clone(); move |d: &[u8]| decode_plan(&pc, d) })
+            .floor("nontrivial", floor).boxed());
 }
 
 pub fn property() -> Property {
     let mut jobs: Vec<Box<dyn JobT>> = Vec::new();
-    add::<SOrswot>(&mut jobs, TShape::Set, 6000, 250_000, 0.02);
-    add::<SMVReg>(&mut jobs, TShape::Reg, 6000, 250_000, 0.02);
-    add::<MapOrswot>(&mut jobs, TShape::MapOf(Box::new(TShape::Set)), 6000, 250_000, 0.02);
-    add::<MapMVReg>(&mut jobs, TShape::MapOf(Box::new(TShape::Reg)), 6000, 250_000, 0.02);
-    add::<MapMapMVReg>(&mut jobs, TShape::MapOf(Box::new(TShape::MapOf(Box::new(TShape::Reg)))), 4000, 100_000, 0.02);
-    add::<SVClock>(&mut jobs, TShape::Clock, 3000, 100_000, 0.02);
-    add::<SGCounter>(&mut jobs, TShape::Clock, 3000, 100_000, 0.02);
-    add::<SPNCounter>(&mut jobs, TShape::Pn, 3000, 100_000, 0.02);
+    add::<SOrswot>(&mut jobs, TShape::Set, 24000, 250_000, 0.02);
+    add::<SMVReg>(&mut jobs, TShape::Reg, 24000, 250_000, 0.02);
+    add::<MapOrswot>(&mut jobs, TShape::MapOf(Box::new(TShape::Set)), 24000, 250_000, 0.02);
+    add::<MapMVReg>(&mut jobs, TShape::MapOf(Box::new(TShape::Reg)), 24000, 250_000, 0.02);
+    add::<MapMapMVReg>(&mut jobs, TShape::MapOf(Box::new(TShape::MapOf(Box::new(TShape::Reg)))), 16000, 100_000, 0.02);
+    add::<SVClock>(&mut jobs, TShape::Clock, 12000, 100_000, 0.02);
+    add::<SGCounter>(&mut jobs, TShape::Clock, 12000, 100_000, 0.02);
+    add::<SPNCounter>(&mut jobs, TShape::Pn, 12000, 100_000, 0.02);
     Property {
         id: "C18",
         rule: "Reachable states of VClock, GCounter, PNCounter, MVReg, Orswot, Map<u8,Orswot>, Map<u8,MVReg>, Map<u8,Map<u8,MVReg>> (histories with merges and, for Orswot/Map, per-actor delivery so pending removes exist) x clocks generated RELATIVE to the state's clock (below, equal, above, concurrent/mixed incl. foreign actors, empty, single-actor slice), at Probe steps. Oracle: the state tree after reset_remove(c) equals the pointwise model (every witness clock keeps exactly the entries strictly newer than c; emptied members/keys/values dropped; nested values reset recursively; top clock reset), plus the laws rr(empty)=identity (==), rr(own full clock) leaves all reads empty, rr(c1);rr(c2) == rr(c1 join c2), rr(c);rr(c) == rr(c). Non-trivial = c is concurrent with the state's clock and covers some but not all entries of >=1 witness; distinct = distinct Plan hash.".into(),
